@@ -240,6 +240,10 @@ pub fn match_pair(
 ) -> Result<(), String> {
   wp.h.get_plugins().register_matched_remote_reader_if_not_already(r, w, false).map_err(e)?;
   rp.h.get_plugins().register_matched_remote_writer_if_not_already(w, r).map_err(e)?;
+  // no key exchange for the volatile-secure endpoints: their keys derive from the shared secret
+  if w.entity_id == EntityId::P2P_BUILTIN_PARTICIPANT_VOLATILE_SECURE_WRITER {
+    return Ok(());
+  }
   if r_attrs.is_payload_protected || r_attrs.is_submessage_protected {
     let t = wp.h.get_plugins().create_local_writer_crypto_tokens(w, r).map_err(e)?;
     rp.h.get_plugins().set_remote_writer_crypto_tokens(w, r, t).map_err(e)?;
